@@ -178,6 +178,12 @@ fn ty_example(
     //  general handling of type definitions
     match &ty.type_def {
         scale_info::TypeDef::Composite(composite) => {
+            // `Cow` is transparent in the generated code: its example is the example of the inner type
+            if ty.path.segments == ["Cow"] {
+                if let Some(inner) = ty.type_params.first().and_then(|p| p.ty) {
+                    return transformer.resolve(inner.id);
+                }
+            }
             let struct_path = transformer.resolve_type_path_omit_generics(type_id)?;
             let has_unused_type_params = transformer.has_unused_type_params(ty)?;
 
